@@ -598,4 +598,27 @@ theorem Rng.get_int (r : Rng) (hr : r.i64) (hl : r.lenOk = true) (i : Int) (h1 :
 theorem Rng.get_lenOverflow (r : Rng) (hl : r.lenOk = false) (k : Val) : r.get k = (r, .ub) := by
   unfold Rng.get; simp [hl]
 
+/-! ### no undefined behaviour for well-formed arguments -/
+
+theorem findEq_ne_ub (ty : Ty) (hty : ty.isElemTy) (v : Val) (hv : v ≠ .nullstr) (items : List Val) (i : Nat)
+    (hel : ∀ x ∈ items, x.elemOf ty) : findEq true v items i ≠ .ub := by
+  have h := findEq_elem ty hty v hv items i hel
+  cases he : elemExc ty v with
+  | some e => rw [he] at h; simp only at h; rw [h]; split <;> simp
+  | none => rw [he] at h; obtain ⟨r, hr, _⟩ := h; rw [hr]; simp
+
+theorem Lst.concatLoop_ne_ub (ty : Ty) (hty : ty.isElemTy) : ∀ (vs : List Val) (l : Lst), l.ty = ty →
+    (∀ v ∈ vs, v ≠ Val.nullstr) → (l.concatLoop vs).2 ≠ .ub := by
+  intro vs
+  induction vs with
+  | nil => intro l _ _; simp [Lst.concatLoop]
+  | cons v vs ih =>
+    intro l hl hn
+    have ha := (assignTo_exc ty hty v (hn v List.mem_cons_self)).2
+    simp only [Lst.concatLoop, Lst.push, hl]
+    cases hx : assignTo ty v with
+    | ok w => exact ih _ (by simp [hl]) (fun w hw => hn w (List.mem_cons_of_mem _ hw))
+    | raised e => simp
+    | ub => exact absurd hx ha
+
 end Cello.Fail
